@@ -1388,6 +1388,60 @@ def mrg5(units, R, floor=0):
     R.floor('MRG5', 'descents of null pruners', n, floor)
 
 
+# ---- IDX1: an index token converted by the C library begins with a digit ---------------------------------------------------------
+
+def idx1(units, R, floor=0):
+    """RFC 6901: an array index is written as decimal digits, no sign, no white space.  strtoul / strtol and their relatives skip
+    white space and take a sign; where cJSON_Utils.c hands a reference token to one of them, the call lies behind tests that the
+    first byte of the token is a decimal digit (`+1`, `-0`, ` 1` would otherwise designate elements)."""
+    u = units['cJSON_Utils.c']
+    n = 0
+    CONV = ('strtoul', 'strtol', 'strtoull', 'strtoll', 'atoi', 'atol', 'strtod', 'sscanf')
+    for fn in u.function_list:
+        if fn.body is None:
+            continue
+        for c in fn.calls():
+            if callee_name(c) not in CONV or not c.get('args'):
+                continue
+            a = strip_casts(c['args'][0])
+            if a.get('k') != 'ref' or a.get('dk') != 'param':
+                continue
+            t = u.ty(a.get('ty0', a['ty']))
+            if t.get('c') != 'ptr' or 'char' not in t.get('s', ''):
+                continue
+            n += 1
+            cfg = fn.cfg()
+            node = node_containing(cfg, c)
+
+            def bound(which):
+                def pred(nn, l):
+                    if nn.kind != 'branch' or l is None or l[0] not in ('T', 'F') or nn.expr is None:
+                        return False
+                    pc = cmp_parts(nn.expr)
+                    if pc is None:
+                        return False
+                    rd = strip_casts(pc[0])
+                    base = idx = None
+                    if rd.get('k') == 'idx':
+                        base, idx = strip_casts(rd['b']), const_val(rd['i'])
+                    elif rd.get('k') == 'un' and rd['op'] == '*':
+                        base, idx = strip_casts(rd['e']), 0
+                    if base is None or base.get('d') != a['d'] or idx != 0:
+                        return False
+                    op, k = pc[1], pc[2]
+                    if l[0] == 'F':
+                        op = {'<': '>=', '<=': '>', '>': '<=', '>=': '<', '==': '!=', '!=': '=='}[op]
+                    if which == 'lo':
+                        return (op == '>=' and k >= 48) or (op == '>' and k >= 47)
+                    return (op == '<=' and k <= 57) or (op == '<' and k <= 58)
+                return pred
+            ok = guarded_by(cfg, node.id, bound('lo')) and guarded_by(cfg, node.id, bound('hi'))
+            R.ob('IDX1', fn, c, 'the token handed to %s begins with a decimal digit' % callee_name(c), ok,
+                 'reached only where %s[0] is within 0..9' % a['n'] if ok else
+                 '%s skips white space and takes a sign: "+1", "-0" or " 1" would be read as an index' % callee_name(c), key='conv:%s' % callee_name(c))
+    R.floor('IDX1', 'library conversions of reference tokens', n, floor)
+
+
 # ---- DIG1: digit-counting loops agree with their radix ----------------------------------------------------------------------
 
 def dig1(units, R, unit_names=('cJSON.c', 'cJSON_Utils.c')):
